@@ -1821,7 +1821,7 @@ theorem C17_exFiller_pad : ∀ t ∈ C17_exFillerTok, bl17Pad t := by
 theorem C17_exCompFiller : CompFiller C17_exCompF C17_exComp :=
   ⟨rfl, FillerIn.ins _ _ _ _ (by simp) rfl C17_exFiller_pad, trivial,
    FillerIn.ins _ _ _ _ (by simp) rfl C17_exFiller_pad,
-   ⟨rfl, rfl, FillerIn.ins _ _ _ _ (by simp) rfl C17_exFiller_pad⟩⟩
+   ⟨rfl, ValFiller.same _, FillerIn.ins _ _ _ _ (by simp) rfl C17_exFiller_pad⟩⟩
 
 example : C17_exComp.wf toyCharSpec ⟨0⟩ = true ∧ (({} : CPad).ok toyCharSpec) = true ∧
     render (spellIngredient C17_exCompF {}) = "@olive [- c -] oil{1%big [- c -] cup}(very [- c -] fine)".toList ∧
